@@ -7,6 +7,24 @@ HERE = os.path.dirname(os.path.dirname(os.path.abspath(__file__)))
 PY = "/venv/bin/python"
 
 CHECKS = {
+    "C01": dict(
+        engine="E1-history-tree",
+        technique="bounded exhaustive enumeration of sample histories x frameworks x layouts x option axes on the real pipeline; reference admits() on the IR, structural acceptance + pydantic parse_obj on the exec'd module",
+        text="Every sample history within the bound is generated for real, the emitted module is executed, and each sample is checked against the IR (after generate and after merge_models) and against the emitted classes; pydantic/sqlmodel output is judged by parse_obj itself. Exhaustive within alphabet/length bounds.",
+        note="Trusted: mc/ir.py admits table, CPython exec, pydantic.v1 as judge; sqlmodel via a stub package; alphabets of DESIGN 2.1, <=3 samples (4 over atoms), nesting depth <=3.",
+        ref="4/C01"),
+    "C02": dict(
+        engine="E1-history-tree",
+        technique="bounded exhaustive enumeration of sample histories on the real pipeline; parallel walk of the final model graph with the samples, witness required for every Optional/union member/element type/Literal/Any",
+        text="For every history within the bound the final registry graph is walked together with the samples; each widening in the graph must be justified by a routed value. Exhaustive within the bound.",
+        note="Trusted: routing walk of mc/ir.py (lenient: a value admitted by two union members witnesses both); values C01 finds unroutable are skipped.",
+        ref="4/C02"),
+    "C07": dict(
+        engine="E1-history-tree",
+        technique="bounded exhaustive enumeration of all sequences per support set (all permutations and duplication patterns up to length 3/4) on the real pipeline; canonical-graph equality",
+        text="All sequences of length <=3 (quick) / <=4 (thorough) over the object alphabet are grouped by their set of distinct samples; every group must produce one canonical model graph. No sampling of permutations.",
+        note="Trusted: canonical form in mc/ir.py (drops field order, union order, names, index strings only).",
+        ref="4/C07"),
     "C08": dict(
         engine="E1-history-tree",
         technique="bounded exhaustive enumeration of value sequences through the real generate()/merge_models(); normal-form predicates + second-pass idempotence on every reached type",
